@@ -743,6 +743,14 @@ def _top_split(f):
     return top[:i], top[i], top[i + 1:]
 
 
+def _pointer_locals(f):
+    out = set()
+    for x in walk(f.body):
+        if x.get('kind') == 'VarDecl' and (qtype(x) or '').rstrip().endswith('*'):
+            out.add(x.get('name'))
+    return out
+
+
 def _is_guard(st):
     """`if (bad arguments) return ...;` at the top of a function"""
     if st.get('kind') != 'IfStmt':
@@ -907,33 +915,59 @@ def rule_murmur_vg(prog, rep, fname, which, rid):
         fw = Forward(prog, f, vg)
         env0 = pre_env(fw, vg)
         n, data = vg.sym(nname), vg.sym(dname)
-        # loop bound
+        # loop bound: a block counter running to n / B, or a block pointer running from the data to data + B * (n / B)
         c = strip_parens(cond) if cond else {}
-        bound = fw.ev(children(c)[1], dict(env0)) if c.get('kind') == 'BinaryOperator' and c.get('opcode') == '<' else None
-        want_bound = vg.div(n, vg.const(B), 64)
+        ptrs_local = _pointer_locals(f)
+        cursor = None
+        if c.get('kind') == 'BinaryOperator' and c.get('opcode') in ('<', '!='):
+            l0 = strip(children(c)[0])
+            if l0.get('kind') == 'DeclRefExpr' and (l0.get('referencedDecl') or {}).get('name') in ptrs_local:
+                cursor = (l0.get('referencedDecl') or {}).get('name')
+        bound = fw.ev(children(c)[1], dict(env0)) if c.get('kind') == 'BinaryOperator' and c.get('opcode') in ('<', '!=') else None
         rep.instance(rid)
-        ok = bound == want_bound and ctr is not None
-        rep.oblige(rid, ok, {'function': fname, 'check': 'block count', 'value': vg.show(bound) if bound is not None else None})
+        if cursor is not None:
+            start = env0.get(cursor)
+            span = vg.add(bound, start, 64, -1) if (bound is not None and start is not None) else None
+            ok = start == data and span == vg.mul(vg.div(n, vg.const(B), 64), vg.const(B), 64)
+            ctr = cursor
+            shown = 'from %s over %s bytes' % (vg.show(start) if start is not None else '?', vg.show(span) if span is not None else '?')
+        else:
+            want_bound = vg.div(n, vg.const(B), 64)
+            ok = bound == want_bound and ctr is not None
+            shown = vg.show(bound) if bound is not None else canon(cond)[:40]
+        rep.oblige(rid, ok, {'function': fname, 'check': 'block count', 'value': shown})
         if not ok:
-            rep.violation(rid, f, loop.get('_line'), 'frame-block-count', '%s: the block loop runs to %s, expected %s / %d: the hash would not '
-                          'cover exactly the given bytes' % (fname, vg.show(bound) if bound is not None else canon(cond)[:40], nname, B))
-        state = sorted(k for k in _assigned_keys(body) if k in env0 and k != ctr)
+            rep.violation(rid, f, loop.get('_line'), 'frame-block-count', '%s: the block loop runs %s, expected %s / %d blocks from the start of '
+                          'the data: the hash would not cover exactly the given bytes' % (fname, shown, nname, B))
+        state = sorted(k for k in _assigned_keys(body) if k in env0 and k != ctr and k not in ptrs_local)
         rep.broken_if(len(state) != (1 if which == 32 else 2), '%s: hash state variables not identified (%s)' % (fname, state))
         env = dict(env0)
         ins = {}
         for v in state:
             ins[v] = env[v] = vg.sym(v + '@in')
-        if ctr:
-            env[ctr] = vg.sym('i')
-        fw.stmt(body, env)
         i_ = vg.sym('i')
+        if cursor is not None:
+            env[cursor] = vg.add(data, vg.mul(i_, vg.const(B), 64), 64)       # the i-th block
+        elif ctr:
+            env[ctr] = i_
+        fw.stmt(body, env)
+        if cursor is not None:
+            # the cursor advances by exactly one block per iteration (in the body or in the loop header)
+            if inc is not None:
+                fw.stmt(inc, env) if inc.get('kind') in ('BinaryOperator', 'CompoundAssignOperator', 'UnaryOperator') else fw.ev(inc, env)
+            rep.instance(rid)
+            okc = env.get(cursor) == vg.add(data, vg.mul(vg.add(i_, vg.const(1), 64), vg.const(B), 64), 64)
+            rep.oblige(rid, okc, {'function': fname, 'check': 'block step'})
+            if not okc:
+                rep.violation(rid, f, loop.get('_line'), 'frame-block-step', '%s: the block pointer advances to %s per iteration, expected one '
+                              'block (%d bytes)' % (fname, vg.show(env.get(cursor)) if env.get(cursor) is not None else '?', B))
         if which == 32:
             refbody, _ = murmur_ref(vg, 32, None, None, None, n, 0)
-            want = [refbody(ins[state[0]], vg.idx(data, i_))]
+            want = [refbody(ins[state[0]], vg.load(vg.add(data, vg.mul(i_, vg.const(4), 64), 64), 32))]
         else:
             refbody, _ = murmur_ref(vg, 128, None, None, None, n, 0)
-            k1 = vg.idx(data, vg.mul(i_, vg.const(2), 64))
-            k2 = vg.idx(data, vg.add(vg.mul(i_, vg.const(2), 64), vg.const(1), 64))
+            k1 = vg.load(vg.add(data, vg.mul(i_, vg.const(16), 64), 64), 64)
+            k2 = vg.load(vg.add(vg.add(data, vg.mul(i_, vg.const(16), 64), 64), vg.const(8), 64), 64)
             want = list(refbody(ins[state[0]], ins[state[1]], k1, k2))
         for v, w_ in zip(state, want):
             rep.instance(rid)
@@ -966,7 +1000,7 @@ def rule_murmur_vg(prog, rep, fname, which, rid):
             tailbase = vg.add(data, vg.mul(vg.div(n, vg.const(B), 64), vg.const(B), 64), 64)
 
             def tail(j):
-                return vg.idx(tailbase, vg.const(j))
+                return vg.load(vg.add(tailbase, vg.const(j), 64), 8)
             if which == 32:
                 _, reffinal = murmur_ref(vg, 32, None, None, tail, n, r)
                 got = [ret]
@@ -1007,7 +1041,8 @@ def rule_fnv_vg(prog, rep, fname, basis, prime, W, rid):
             if not _is_guard(st):
                 fw.stmt(st, env0)
         init, cond, inc, body = _loop_parts(loop)
-        state = sorted(k for k in _assigned_keys(body) if k in env0)
+        ptrs_local = _pointer_locals(f)
+        state = sorted(k for k in _assigned_keys(body) if k in env0 and k not in ptrs_local)
         rep.broken_if(len(state) != 1, '%s: hash state variable not identified (%s)' % (fname, state))
         if len(state) != 1:
             return
@@ -1073,7 +1108,7 @@ def rule_md5_vg(prog, rep, rid='H5-md5'):
         fw.run(children(ftr.body), env)
         sname = ftr.params[0].get('name')
         S = vg.sym(sname)
-        st = [vg.idx(S, vg.const(i)) for i in range(4)]
+        st = [vg.load(vg.add(S, vg.const(4 * i), 64), 32) for i in range(4)]      # state words: u_int32_t state[4] (a pointer parameter)
         # the message words: whatever array the transform reads (x[k]) - find its name from the code
         xname = None
         for x in walk(ftr.body):
